@@ -21,6 +21,7 @@ import (
 
 	"github.com/bluenviron/mediamtx/internal/conf"
 	"github.com/bluenviron/mediamtx/internal/conf/jsonwrapper"
+	"github.com/bluenviron/mediamtx/internal/logger"
 )
 
 // C12 driver: random edit histories against a real Core, directly through the apiParent methods
@@ -344,10 +345,124 @@ func vC12Classify(err error) string {
 }
 
 type vC12Target struct {
-	p      *Core
-	http   bool
-	base   string
-	client *http.Client
+	p        *Core
+	http     bool
+	base     string
+	client   *http.Client
+	confFile string
+	port     int
+}
+
+type vC12NopLogger struct{}
+
+func (vC12NopLogger) Log(logger.Level, string, ...any) {}
+
+// ---- the configuration file ---------------------------------------------------------------------------------------
+
+// the settings every generated file keeps (those of vC12Start), as JSON members (JSON is YAML)
+func (tg *vC12Target) fileBase() []string {
+	return []string{`"logLevel":"error"`, fmt.Sprintf(`"api":%v`, tg.http), fmt.Sprintf(`"apiAddress":"127.0.0.1:%d"`, tg.port),
+		`"metrics":false`, `"pprof":false`, `"playback":false`, `"rtsp":false`, `"rtmp":false`, `"hls":false`,
+		`"webrtc":false`, `"srt":false`, `"moq":false`}
+}
+
+var vC12FileNames = []string{"cam1", "cam2", "a/b", "~^live/(.+)$", "all_others", "cam3", "x", "filecam"}
+
+// a random configuration file: a few global parameters, path defaults, a set of paths with a few fields each
+func (g *vC12Gen) fileDoc(tg *vC12Target) string {
+	r := g.r
+	parts := tg.fileBase()
+	seen := map[string]bool{"logLevel": true, "api": true, "apiAddress": true, "metrics": true, "pprof": true, "playback": true,
+		"rtsp": true, "rtmp": true, "hls": true, "webrtc": true, "srt": true, "moq": true, "name": true}
+	for i := r.Intn(4); i > 0; i-- {
+		kv, bad := g.globalField()
+		if bad || seen[kv.k] {
+			continue
+		}
+		seen[kv.k] = true
+		parts = append(parts, vC12Q(kv.k)+":"+kv.v)
+	}
+	obj := func(max int) string {
+		var fs []string
+		used := map[string]bool{"name": true}
+		for i := r.Intn(max + 1); i > 0; i-- {
+			kv, bad := g.pathField()
+			if bad || used[kv.k] {
+				continue
+			}
+			used[kv.k] = true
+			fs = append(fs, vC12Q(kv.k)+":"+kv.v)
+		}
+		return "{" + strings.Join(fs, ",") + "}"
+	}
+	if r.Chance(1, 2) {
+		parts = append(parts, `"pathDefaults":`+obj(2))
+	}
+	var ps []string
+	for _, n := range vC12FileNames {
+		if r.Chance(2, 5) {
+			if r.Chance(1, 4) {
+				ps = append(ps, vC12Q(n)+":null")
+			} else {
+				ps = append(ps, vC12Q(n)+":"+obj(3))
+			}
+		}
+	}
+	parts = append(parts, `"paths":{`+strings.Join(ps, ",")+"}")
+	return "{" + strings.Join(parts, ",\n") + "}\n"
+}
+
+func (g *vC12Gen) brokenFileDoc(tg *vC12Target) string {
+	switch g.r.Intn(4) {
+	case 0:
+		return "{\"paths\": [\n" // does not parse
+	case 1:
+		return "{" + strings.Join(append(tg.fileBase(), `"thisParameterDoesNotExist":1`), ",") + "}"
+	case 2:
+		return "{" + strings.Join(append(tg.fileBase(), `"paths":{"cam1":{"source":"invalid://x"}}`), ",") + "}"
+	default:
+		return "{" + strings.Join(append(tg.fileBase(), `"readTimeout":"soon"`), ",") + "}"
+	}
+}
+
+// what conf.Load makes of a file content (an independent load, in a directory that is not watched)
+func vC12LoadDoc(scratch string, doc string) (*conf.Conf, error) {
+	f := filepath.Join(scratch, "candidate.yml")
+	if err := os.WriteFile(f, []byte(doc), 0o644); err != nil {
+		return nil, err
+	}
+	c, _, err := conf.Load(f, nil, vC12NopLogger{})
+	return c, err
+}
+
+// replace the watched file in one step (rename from a directory that is not watched) and wait until Core.run has
+// handled the watcher's signal: p.conf is replaced (ok), or Core.run has terminated (exited)
+func (tg *vC12Target) rewriteFile(scratch string, doc string) (ok bool, exited bool) {
+	// let the reload that follows the previous answer finish
+	for i := 0; i < 2000 && tg.p.conf.Load() != tg.p.APIConfigSnapshot(); i++ {
+		time.Sleep(5 * time.Millisecond)
+	}
+	before := tg.p.conf.Load()
+	tmp := filepath.Join(scratch, "next.yml")
+	if err := os.WriteFile(tmp, []byte(doc), 0o644); err != nil {
+		return false, false
+	}
+	if err := os.Rename(tmp, tg.confFile); err != nil {
+		return false, false
+	}
+	deadline := time.Now().Add(20 * time.Second)
+	for time.Now().Before(deadline) {
+		select {
+		case <-tg.p.done:
+			return false, true
+		default:
+		}
+		if tg.p.conf.Load() != before {
+			return true, false
+		}
+		time.Sleep(5 * time.Millisecond)
+	}
+	return false, false
 }
 
 // decode as the API handlers do; returns the present fields, or ok=false when the body is rejected
@@ -546,7 +661,7 @@ paths:
 	if !ok {
 		t.Fatalf("core did not start")
 	}
-	return &vC12Target{p: p, http: withAPI, base: fmt.Sprintf("http://127.0.0.1:%d", port),
+	return &vC12Target{p: p, http: withAPI, base: fmt.Sprintf("http://127.0.0.1:%d", port), confFile: cf, port: port,
 		client: &http.Client{Timeout: 30 * time.Second, Transport: &http.Transport{DisableKeepAlives: true}}}
 }
 
@@ -561,6 +676,7 @@ func TestVerifC12(t *testing.T) {
 	if nHTTP < 3 {
 		nHTTP = 3
 	}
+	scratch := t.TempDir() // not watched: candidates of the configuration file are written and loaded here
 	stepClasses := map[string]int{}
 	inflight := ""
 	if w := os.Getenv("VERIF_WORK"); w != "" {
@@ -586,8 +702,97 @@ func TestVerifC12(t *testing.T) {
 		var stepDescs []any
 		nOK, nRej := 0, 0
 		unanswered := false
+		notReloaded := false
+
+		// every second history also reloads the configuration file: once at a random position (the watcher signals
+		// at once), in 1/8 of them a second time (the watcher defers that signal until 1 s after the first); 1/6 of
+		// them end with a file that does not load, 1/8 with an accepted edit whose resources cannot be created
+		fileHist := h%2 == 1
+		filePos := map[int]bool{}
+		brokenEnd, startFail := false, false
+		if fileHist {
+			filePos[r.Intn(steps-1)] = true
+			if r.Chance(1, 8) {
+				filePos[r.Intn(steps-1)] = true
+			}
+			switch k := r.Intn(24); {
+			case k < 4:
+				brokenEnd = true
+			case k < 7:
+				startFail = true
+			}
+		}
+		wrap := func(term string) string {
+			if fileHist {
+				return cqApp("SApi", term)
+			}
+			return term
+		}
 
 		for s := 0; s < steps; s++ {
+			if fileHist && (filePos[s] || (brokenEnd && s == steps-1)) {
+				broken := !filePos[s]
+				var doc string
+				var loaded *conf.Conf
+				if broken {
+					doc = g.brokenFileDoc(tg)
+					if _, err := vC12LoadDoc(scratch, doc); err == nil {
+						t.Fatalf("the broken file loads: %s", doc)
+					}
+				} else {
+					for try := 0; ; try++ {
+						doc = g.fileDoc(tg)
+						if try >= 8 {
+							doc = "{" + strings.Join(append(tg.fileBase(), `"paths":{"cam1":{}}`), ",") + "}"
+						}
+						var err error
+						if loaded, err = vC12LoadDoc(scratch, doc); err == nil {
+							break
+						} else if try >= 8 {
+							t.Fatalf("fallback file does not load: %v", err)
+						}
+					}
+				}
+				ok, exited := tg.rewriteFile(scratch, doc)
+				sd := map[string]any{"op": "file", "content": doc}
+				if broken {
+					sd["outcome"] = map[bool]string{true: "Core.run terminated", false: "Core.run did NOT terminate"}[exited]
+					stepTerms = append(stepTerms, cqApp("SBroken", cqBool(exited)))
+					stepDescs = append(stepDescs, sd)
+					stepClasses["file:broken-exit"]++
+					break
+				}
+				if !ok {
+					sd["outcome"] = "the running configuration did not change within 20 s"
+					stepDescs = append(stepDescs, sd)
+					notReloaded = true
+					break
+				}
+				exp := vC12ReadSnapshot(loaded)
+				cur, err := tg.read()
+				if err != nil {
+					tg.p.Close()
+					t.Fatalf("history %d step %d read after file reload: %v", h, s, err)
+				}
+				xg, xgr := vC12Diff(prev.g, exp.g)
+				xd, xdr := vC12Diff(prev.d, exp.d)
+				xp, xpD := in.paths(exp)
+				og, ogr := vC12Diff(prev.g, cur.g)
+				od, odr := vC12Diff(prev.d, cur.d)
+				opT, opD := in.paths(cur)
+				stepTerms = append(stepTerms, cqApp("SFile", cqApp("mkFile", in.fmap(xg), in.keys(xgr), in.fmap(xd), in.keys(xdr), xp,
+					in.fmap(og), in.keys(ogr), in.fmap(od), in.keys(odr), opT)))
+				sd["outcome"] = "reloaded"
+				sd["filePaths"] = xpD
+				sd["pathsAfter"] = opD
+				if len(og)+len(ogr) > 0 {
+					sd["globalChanged"] = og
+				}
+				stepDescs = append(stepDescs, sd)
+				stepClasses["file:reloaded"]++
+				prev = cur
+				continue
+			}
 			var op vC12Op
 			switch k := r.Intn(20); {
 			case k < 3:
@@ -604,7 +809,17 @@ func TestVerifC12(t *testing.T) {
 				op.kind = "delete"
 			}
 			mustReject := false
-			if op.kind != "global" && op.kind != "defaults" {
+			failStart := fileHist && startFail && s == steps-1
+			var held net.Listener
+			if failStart {
+				// an edit that Validate accepts and whose resources cannot be created: the metrics server on a port in use
+				held, _ = net.Listen("tcp", "127.0.0.1:0")
+				op = vC12Op{kind: "global", body: fmt.Sprintf(`{"metrics":true,"metricsAddress":"127.0.0.1:%d"}`,
+					held.Addr().(*net.TCPAddr).Port)}
+			}
+			if failStart {
+				// keep the generated request
+			} else if op.kind != "global" && op.kind != "defaults" {
 				existing := make([]string, 0, len(prev.cells))
 				for nm := range prev.cells {
 					existing = append(existing, nm)
@@ -612,7 +827,7 @@ func TestVerifC12(t *testing.T) {
 				sort.Strings(existing)
 				op.name = g.name(op.kind, existing)
 			}
-			if op.kind != "delete" {
+			if op.kind != "delete" && !failStart {
 				op.body, mustReject = g.body(op.kind == "global")
 			}
 			// if the process dies while this request is handled, the plugin reports it from this file
@@ -620,7 +835,7 @@ func TestVerifC12(t *testing.T) {
 				b, _ := json.Marshal(map[string]any{"mode": map[bool]string{true: "http", false: "direct"}[useHTTP],
 					"history": h, "initialPaths": initPathsD, "steps": stepDescs,
 					"request": map[string]any{"op": op.kind, "name": op.name, "body": op.body},
-					"note": "the process died while this request was handled or the configuration it produced was loaded"})
+					"note":    "the process died while this request was handled or the configuration it produced was loaded"})
 				os.WriteFile(inflight, b, 0o644) //nolint:errcheck
 			}
 			fields, decOK := vC12Decode(op)
@@ -642,6 +857,22 @@ func TestVerifC12(t *testing.T) {
 				}
 			} else {
 				outcome, msg = tg.direct(op)
+			}
+			if failStart {
+				exited := false
+				select {
+				case <-tg.p.done:
+					exited = true
+				case <-time.After(20 * time.Second):
+				}
+				held.Close()
+				patch := in.fmap(fields)
+				stepTerms = append(stepTerms, cqApp("SStartFail", cqApp("mkStep", cqApp("PatchGlobal", patch), cqBool(false), outcome,
+					"[]", "[]", "[]", "[]", "[]"), cqBool(exited)))
+				stepDescs = append(stepDescs, map[string]any{"op": op.kind, "body": op.body, "outcome": outcome[1:], "error": msg,
+					"then": map[bool]string{true: "Core.run terminated", false: "Core.run did NOT terminate"}[exited]})
+				stepClasses["global:Ok-then-exit"]++
+				break
 			}
 			cur, err := tg.read()
 			if err != nil {
@@ -679,8 +910,8 @@ func TestVerifC12(t *testing.T) {
 			gch, grem := vC12Diff(prev.g, cur.g)
 			dch, drem := vC12Diff(prev.d, cur.d)
 			pathsTerm, pathsD := in.paths(cur)
-			stepTerms = append(stepTerms, cqApp("mkStep", opTerm, cqBool(mustReject), outcome,
-				in.fmap(gch), in.keys(grem), in.fmap(dch), in.keys(drem), pathsTerm))
+			stepTerms = append(stepTerms, wrap(cqApp("mkStep", opTerm, cqBool(mustReject), outcome,
+				in.fmap(gch), in.keys(grem), in.fmap(dch), in.keys(drem), pathsTerm)))
 			sd := map[string]any{"op": op.kind, "name": op.name, "body": op.body, "outcome": outcome[1:]}
 			if msg != "" {
 				sd["error"] = msg
@@ -726,6 +957,24 @@ func TestVerifC12(t *testing.T) {
 		class := "direct"
 		if useHTTP {
 			mode, class = "Http", "http"
+		}
+		if notReloaded {
+			out.Case(cqApp("NotReloaded", mode), map[string]any{"mode": class, "initialPaths": initPathsD, "steps": stepDescs},
+				class+"-file-not-reloaded", true)
+			continue
+		}
+		if fileHist {
+			class += "+file"
+			if brokenEnd {
+				class += "+broken"
+			}
+			if startFail {
+				class += "+startfail"
+			}
+			out.Case(cqApp("FileHistory", mode, cqZ(int64(nameFid)), initTerm[0], initTerm[1], initTerm[2], cqList(stepTerms)),
+				map[string]any{"mode": class, "initialPaths": initPathsD, "steps": stepDescs}, class, nOK > 0 && nRej > 0)
+			out.w.Flush()
+			continue
 		}
 		out.Case(cqApp("History", mode, cqZ(int64(nameFid)), initTerm[0], initTerm[1], initTerm[2], cqList(stepTerms)),
 			map[string]any{"mode": class, "initialPaths": initPathsD, "steps": stepDescs}, class, nOK > 0 && nRej > 0)
